@@ -44,6 +44,11 @@ def atoms():
         ["!=", S("US"), C("")],
         ["=", S("SOC_NUM"), C("4")],
         ["!=", S("IDF_TARGET"), S("US")],
+        # promptless helpers whose value follows a user option only through `depends on` / an enclosing if
+        S("HELP_D"),
+        S("HELP_D2"),
+        S("HELP_IF"),
+        ["=", S("HELP_N"), C("4")],
     ]
 
 
@@ -80,6 +85,10 @@ def base_entries(target):
         g("UB2", "y"),
         mk_config("UI", "int", prompt=Y, defaults=[{"v": C("3"), "c": Y}]),
         mk_config("US", "string", prompt=Y, defaults=[{"v": C("chipa"), "c": Y}]),
+        mk_config("HELP_D", "bool", dep=S("UB"), defaults=[{"v": ["y"], "c": Y}]),
+        mk_config("HELP_D2", "bool", dep=S("UB2"), defaults=[{"v": ["y"], "c": S("IDF_TARGET_CHIPA")}, {"v": ["y"], "c": S("IDF_TARGET_CHIPB")}]),
+        {"k": "if", "c": S("UB"), "children": [mk_config("HELP_IF", "bool", defaults=[{"v": ["y"], "c": Y}])]},
+        {"k": "menu", "title": "hm", "dep": ["<", S("UI"), C("5")], "visif": Y, "children": [mk_config("HELP_N", "int", defaults=[{"v": C("4"), "c": Y}])]},
     ]
     vars_ = [
         {"n": "HIDP", "kind": "sym", "cands": [NOVAL, "n"]},
